@@ -12,7 +12,7 @@ REGISTRY = {
                          'a union of base modalities, and attains the maximal measure over all viable candidates; two-stage NaN search) on count-table frames with exact ties / '
                          'boundary frequencies and random frames.',
              trusted=['scipy chi2_contingency / kruskal as the statistic of the oracle', 'Discretizer (same parameters) defines the base modalities, as the property states']),
- 'C02': dict(level='other', P=[ENUM], R=['rtc.c01_carver'],
+ 'C02': dict(level='other', P=[ENUM], S=['contracts.forwarding:carver_defaults_obligations'], R=['rtc.c01_carver'],
              explanation='PROVED (engine P): every candidate ever generated has between 2 and max_n_mod groups, the NaN-alone placement only when len < max_n_mod. '
                          'BOUNDED (engine R): post-conditions of fit+transform on train and dev (label count, per-label frequency >= min_freq_mod, missing handling, same labels and '
                          'same rate ranking on dev) on the same frames as C01.',
